@@ -60,6 +60,22 @@ abbrev Stmt (σ : Type) := σ → Out σ
 
 infixr:60 " ;; " => seq
 
+/-! Evaluation lemmas: `simp` with these turns a translated body applied to a state into a decision
+tree of `if`s whose leaves are `Out.cont`/`Out.ret`. -/
+@[simp] theorem skip_apply {σ} (s : σ) : (skip : Stmt σ) s = .cont s := rfl
+@[simp] theorem assign_apply {σ} (f : σ → σ) (s : σ) : assign f s = .cont (f s) := rfl
+@[simp] theorem ret_apply {σ} (r : σ → Res) (s : σ) : ret r s = .ret (r s) s := rfl
+@[simp] theorem ite'_apply {σ} (c : σ → Bool) (a b : Stmt σ) (s : σ) :
+    ite' c a b s = if c s then a s else b s := rfl
+@[simp] theorem seq_skip {σ} (b : Stmt σ) (s : σ) : (skip ;; b) s = b s := rfl
+@[simp] theorem seq_assign {σ} (f : σ → σ) (b : Stmt σ) (s : σ) : (assign f ;; b) s = b (f s) := rfl
+@[simp] theorem seq_ret {σ} (r : σ → Res) (b : Stmt σ) (s : σ) : (ret r ;; b) s = .ret (r s) s := rfl
+@[simp] theorem seq_ite' {σ} (c : σ → Bool) (a b k : Stmt σ) (s : σ) :
+    (ite' c a b ;; k) s = if c s then (a ;; k) s else (b ;; k) s := by
+  unfold seq ite'; by_cases h : c s = true <;> simp [h]
+@[simp] theorem seq_seq {σ} (a b c : Stmt σ) (s : σ) : ((a ;; b) ;; c) s = (a ;; (b ;; c)) s := by
+  unfold seq; cases a s <;> rfl
+
 /-- Go map lookup with comma-ok: missing key gives the zero value and `false`. -/
 @[inline] def lookup (V : Versions) (k : Nat) : VParams × Bool :=
   match V k with
